@@ -223,3 +223,95 @@ def blocks_between(body, start_bb, end_bb, unwind=False):
 def ok_exits(body):
     """(bb, idx, stmt) of `_0 = Result::Ok(..)` assignments, plus returns of a callee's result are ignored."""
     return blocks_assigning_variant(body, "std::result::Result", "Ok")
+
+
+def render_n(e):
+    """render with parameters named by position (for twin comparison)"""
+    from analysis.sym import render as _r
+    def norm(x):
+        if x[0] == "arg":
+            return ("arg", x[1], "arg%d" % x[1])
+        if x[0] == "local":
+            return ("local", x[1], x[2] or "_%d" % x[1])
+        if x[0] == "field":
+            return ("field", norm(x[1]), x[2])
+        if x[0] == "variant":
+            return ("variant", norm(x[1]), x[2])
+        if x[0] in ("index", "discr"):
+            return (x[0], norm(x[1]))
+        if x[0] == "call":
+            return ("call", x[1], tuple(norm(a) for a in x[2]), 0)
+        if x[0] == "bin":
+            return ("bin", x[1], norm(x[2]), norm(x[3]))
+        if x[0] in ("un", "cast"):
+            return (x[0], x[1], norm(x[2]))
+        if x[0] == "agg":
+            return ("agg", x[1], x[2], tuple((n, norm(v)) for n, v in x[3]))
+        return x
+    return _r(norm(e))
+
+
+def value_rows(body, sym, facts, local, depth=2, fmt=None):
+    """Decision rows for the value of `local`: list of (sorted guard texts, value text).  Multiply-defined
+    locals feeding the value are expanded per definition (cross product), to `depth` levels."""
+    fmt = fmt or render_n
+    rows = []
+    defs = body.defs_of(local)
+    live = body.live_blocks()
+    for d in defs:
+        if d[0] == "arg":
+            rows.append(([], ("arg", local, None), None))
+            continue
+        bb = d[1]
+        if bb not in live:
+            continue
+        fs = facts_at(body, sym, facts, bb)
+        if d[0] == "assign":
+            v = sym.rvalue(d[3])
+        else:
+            t = d[2]
+            v = ("call", t["callee"]["path"], tuple(sym.op(a) for a in t["args"]), bb)
+        rows.append((fs, v, bb))
+    out = []
+    for fs, v, bb in rows:
+        inner = [x for x in walk(v) if x[0] == "local" and len(body.defs_of(x[1])) > 1]
+        if inner and depth > 0:
+            l2 = inner[0][1]
+            for g2, v2 in value_rows(body, sym, facts, l2, depth - 1, fmt=lambda z: z):
+                # only combinations whose definitions can reach this use
+                vv = _subst(v, ("local", l2), v2)
+                out.append((sorted(set(_gtexts(fs, fmt) + g2)), vv))
+        else:
+            out.append((sorted(set(_gtexts(fs, fmt))), v))
+    if fmt is not None and depth == 2:
+        return [(g, fmt(v) if not isinstance(v, str) else v) for g, v in out]
+    return out
+
+
+def _gtexts(fs, fmt):
+    out = []
+    for f in fs:
+        try:
+            out.append("%s is %s" % (render_n(f["expr"]), f["val"]))
+        except Exception:
+            out.append(f["text"])
+    return out
+
+
+def _subst(e, key, val):
+    if e[0] == key[0] and e[1] == key[1]:
+        return val
+    k = e[0]
+    if k in ("field", "variant"):
+        return (k, _subst(e[1], key, val), e[2])
+    if k in ("index", "discr"):
+        return (k, _subst(e[1], key, val))
+    if k == "call":
+        return ("call", e[1], tuple(_subst(a, key, val) for a in e[2]), e[3])
+    if k == "bin":
+        return ("bin", e[1], _subst(e[2], key, val), _subst(e[3], key, val))
+    if k in ("un", "cast"):
+        return (k, e[1], _subst(e[2], key, val))
+    if k == "agg":
+        return ("agg", e[1], e[2], tuple((n, _subst(v, key, val)) for n, v in e[3]))
+    return e
